@@ -4,7 +4,7 @@ PROPS[pid]["rules"] = [(rule id, floor of decided instances, selector over insta
 Floors are the numbers counted on the tree the rules were written against: a rule that suddenly
 matches fewer sites is a broken check (exit 2), never a silent pass.
 """
-from . import tr, di, ug, em, wt, mf, lp, wc, mk, nc, lt, td, pm, hs, ws, tf, ec, se, bb, lc, cm, vt, bt, sr, le, wf, dp, dt, he, gl, ts, ee, sl, wp, fs, ic, nb, im, rn, mp, sp, ms, cp, sh, st, rh, vo, wi, law, cn, pr, dtr, sa, vx
+from . import tr, di, ug, em, wt, mf, lp, wc, mk, nc, lt, td, pm, hs, ws, tf, ec, se, bb, lc, cm, vt, bt, sr, le, wf, dp, dt, he, gl, ts, ee, sl, wp, fs, ic, nb, im, rn, mp, sp, ms, cp, sh, st, rh, vo, wi, law, cn, pr, dtr, sa, vx, fd
 
 
 def has(*subs):
@@ -81,6 +81,7 @@ RULES = {
     "NC": {"run": nc.run},
     "MK": {"run": mk.run},
     "WC": {"run": wc.run},
+    "FD": {"run": fd.run},
 }
 
 BDD_T = ("BddNode", "BddPtr")
@@ -272,7 +273,7 @@ PROPS = {
         "level": "other",
         "rules": [("IC", 13, hasnot("repr::cnf::Cnf::from_dimacs")), ("VO", 15, vo_sel("var_order", "vtree", "dtree", "force_order")), ("DTR", 5, None), ("VX", 11, None),
                   ("LT", 2, has("VarOrder", "VTreeManager")), ("VT", 4, None), ("BT", 9, None),
-                  ("NC", 1, has("DTree::from_cnf")), ("MF", 4, None), ("EM", 4, has("DTree::from_cnf", "force_order", "average_span", "interaction_graph"))],
+                  ("NC", 1, has("DTree::from_cnf")), ("MF", 4, None), ("EM", 4, has("DTree::from_cnf", "force_order", "average_span", "interaction_graph")), ("FD", 2, None)],
         "explanation": "Dimension analysis (Index / Count / OneBased): every function called num_vars returns a count, every "
                        "num_vars field is initialised with a count, label-indexed table sizes are counts (IC). Not decided: "
                        "permutation-ness of heuristic orders, dtree cutsets, LCA / in-order index arithmetic. Added: FORCE re-positions every variable in every round (no element-dropping adaptor in the pipeline: VO force_order); var_to_pos and vtree_index keep their label indexing (LT). Added after the fourth seeding round: DTree::from_cnf turns every clause into a leaf (NC: every iteration of a loop over the items pushes onto its accumulator; an iterator chain from the items to collect() has no filter/skip/take/dedup) - a dropped clause gives the result extra models while everything downstream stays consistent. Added: MF — the min-fill order is a permutation by construction: every iteration of the elimination loop records the stored weight of exactly the node it eliminates (not the node's index, which the graph library re-uses), elimination removes exactly that node, the interaction graph has one node per variable 0..num_vars, and the order is built from the recorded sequence. Added: EM — empty cases by abstract evaluation under the assumption that one collection is empty (loops over it do not run, len = 0, pop/last/next = None): FORCE and min-fill inputs without clauses or with an empty clause (defects D13, repaired), and DTree::from_cnf on the empty formula (known finding).",
